@@ -77,11 +77,99 @@ def run(repo, rep, tier):
     sorts_every_ordering(repo, rep)
     r_freshcopy_local(repo, rep)
     clients(repo, rep)
+    time_axis(repo, rep)
     fam = [(MOD, "%s.%s" % (CLS, q)) for q in ("set", "_order_points", "_compute_table", "_newton_diff", "__call__", "derivative", "root", "minmax")]
     effects.check_functions(repo, rep, fam)
     guards.check_functions(repo, rep, fam)
     raises(repo, rep, fam)
     return "other"
+
+
+def time_axis(repo, rep):
+    """R-TIMEAXIS: the conjunction helpers tabulate the coordinate differences against n = -k..k with the middle entry of
+    the table actually used at n = 0 (an even-sized table loses its last entry).  The functions look at the table only
+    through its length, so they are evaluated - comprehensions unrolled, slices and parities folded - for every table size
+    the property names (3..9 entries) and the abscissae / ordinates handed to Interpolation are read off the result."""
+    from fractions import Fraction
+    rep.rule("R-TIMEAXIS", "for every table size 3..9 the conjunction helpers hand Interpolation the abscissae -k..k (middle entry of the "
+                           "used table at n = 0) and, at abscissa j-k, the difference of the j-th entries")
+    n_inst = 0
+    for q in ("planetary_conjunction", "planet_star_conjunction"):
+        rep.fn("Coordinates", q)
+        site = "Coordinates." + q
+        fn = repo.func("Coordinates", q)
+        nm = [a.arg for a in fn.args.args]
+        lists = [n for n in nm if n.endswith("_list")]
+        if not lists:
+            rep.inconcl("R-TIMEAXIS", site, "no *_list parameter found")
+            continue
+        bad = None
+        unknown = None
+        for N in range(3, 10):
+            at = {n: (("list",) + tuple(("angle", T.sym("%s#%d" % (n.upper(), j))) for j in range(N))) if n in lists else ("angle", T.sym(n.upper())) for n in nm}
+            try:
+                outs = [o for o in outcomes(repo, "Coordinates", q, arg_terms=at) if o.kind == "ret"]
+            except AnalysisError as e:
+                unknown = "N=%d: %s" % (N, e)
+                break
+            if len(outs) != 1 or outs[0].cond != ("bool", True):
+                unknown = "N=%d: the result still depends on a condition (%d returning paths)" % (N, len(outs))
+                break
+            o = outs[0]
+            ctors = []
+            for x in T.walk(("bag", o.value) + tuple(v for v in o.env.values() if isinstance(v, tuple))):
+                if x[0] == "call" and x[1] == "Interpolation.Interpolation" and x not in ctors:
+                    ctors.append(x)
+            v = o.value
+            if not ctors and v[0] == "call" and v[1] == "Coordinates.planetary_conjunction" and q != "planetary_conjunction":
+                # delegation: the table goes unchanged to planetary_conjunction (decided above), the other body is constant
+                args = v[2:]
+                same = len(args) == 4 and all(a_[0] in ("list", "tuple") and len(a_) - 1 == N for a_ in args)
+                if same:
+                    planet = [a_ for a_ in args if ("list",) + tuple(a_[1:]) in [at[n] for n in lists]]
+                    star = [a_ for a_ in args if a_ not in planet]
+                    same = len(planet) == len(lists) and all(len(set(a_[1:])) == 1 for a_ in star) \
+                        and [("list",) + tuple(a_[1:]) for a_ in args[:2]] == [at[n] for n in lists][:2]
+                if not same:
+                    bad = (N, "delegates to planetary_conjunction with %s" % T.show(v)[:80], "the planet's tables unchanged and one constant table per star coordinate, all of %d entries" % N)
+                    break
+                n_inst += 1
+                continue
+            if len(ctors) < 2:
+                unknown = "N=%d: fewer than two Interpolation tables are built" % N
+                break
+            M = N if N % 2 == 1 else N - 1
+            k = (M - 1) // 2
+            want = ("list",) + tuple(T.num(j - k) for j in range(M))
+            for c in ctors:
+                if len(c) != 4 or c[2][0] not in ("list", "tuple") or c[3][0] not in ("list", "tuple"):
+                    unknown = "N=%d: Interpolation is not built from two literal tables: %s" % (N, T.show(c)[:80])
+                    break
+                xs, ys = c[2], c[3]
+                if ("list",) + tuple(xs[1:]) != want:
+                    bad = (N, "abscissae %s" % T.show(xs)[:60], "expected %s (the middle entry of the %d entries used must be n = 0)" % (T.show(want)[:60], M))
+                    break
+                if len(ys) != len(xs):
+                    bad = (N, "%d ordinates for %d abscissae" % (len(ys) - 1, len(xs) - 1), "one difference per abscissa")
+                    break
+                for j, y in enumerate(ys[1:]):
+                    idxs = {s_[1].split("#")[1] for s_ in T.walk(y) if s_[0] == "sym" and "#" in s_[1]}
+                    if idxs != {str(j)}:
+                        bad = (N, "ordinate %d is built from entries %s" % (j, sorted(idxs)), "the difference of the entries number %d" % j)
+                        break
+                if bad:
+                    break
+            if bad or unknown:
+                break
+            n_inst += 1
+        if unknown:
+            rep.inconcl("R-TIMEAXIS", site, unknown)
+        elif bad:
+            rep.violation("R-TIMEAXIS", site, "time-axis:N=%d" % bad[0], "with %d entries: %s; %s - the returned time is shifted against the documented middle epoch"
+                          % bad, construct="N=%d" % bad[0], obligation=True)
+        else:
+            rep.ok("R-TIMEAXIS", site, "tables of 3..9 entries: abscissae -k..k centred on the middle used entry, ordinate j from the j-th entries", obligation=True)
+    rep.floor("table sizes evaluated for the conjunction helpers", n_inst, 7)
 
 
 def clamp(repo, rep):
